@@ -1104,6 +1104,60 @@ def c01_c04(v, tier, pid):
                 if not (tr.completed and bytes(tr.data) == want):
                     v.violation("C04/net/long-timeout", f"{'single' if srv.single else 'multi'}-port: download with timeout 30 s and one lost DATA did not complete ({tr.note}, error {tr.error})",
                                 {"engine": "net", "timeout": 30, "single_port": srv.single, "note": tr.note})
+    if pid == "C04":
+        # the final ACK of a download is lost (the one exception RFC 1350 allows: that server-side transfer fails); the same
+        # client socket then runs its next transfer, which lasts beyond the moment the first worker gives up - it must
+        # complete, in both port modes
+        def after_lost_final_ack(srv):
+            s = N._sock(srv.family, timeout=2.0)
+            tr = N.Transfer()
+            try:
+                s.sendto(N.enc_req(N.RRQ, "f.bin", options=[("timeout", 1)]), srv.addr)
+                k, f, peer = N.recv(s, tr)
+                if k != "OACK":
+                    return srv, None, f"first reply {k}"
+                s.sendto(N.enc_ack(0), peer)
+                while True:
+                    k, f, _ = N.recv(s, tr)
+                    if k != "DATA":
+                        return srv, None, f"download broke off with {k}"
+                    if len(f["data"]) < 512:
+                        break                      # final block: its ACK is "lost"
+                    s.sendto(N.enc_ack(f["blk"]), peer)
+                body = N.keyed_content("c04-next", 512 * 19 + 7)
+                s.sendto(N.enc_req(N.WRQ, f"next_{int(srv.single)}.bin", options=[("timeout", 1)]), srv.addr)
+                peer2 = None
+                while peer2 is None:
+                    k, f, src = N.recv(s, tr)
+                    if k == "OACK":
+                        peer2 = src
+                    elif k is None or k == "ERROR":
+                        return srv, False, f"second request answered {k} {f}"
+                for blk in range(1, len(body) // 512 + 2):
+                    s.sendto(N.enc_data(blk, body[(blk - 1) * 512:blk * 512]), peer2)
+                    while True:
+                        k, f, src = N.recv(s, tr)
+                        if k == "ACK" and src == peer2 and f["blk"] == blk:
+                            break
+                        if k == "ERROR" and src == peer2:
+                            return srv, False, f"ERROR {f} from the transfer's own address at block {blk} of the second transfer"
+                        if k is None:
+                            return srv, False, f"no ACK for block {blk} of the second transfer"
+                    time.sleep(0.45)
+                time.sleep(0.1)
+                pth = os.path.join(srv.args[srv.args.index("-d") + 1], f"next_{int(srv.single)}.bin")
+                got = open(pth, "rb").read() if os.path.exists(pth) else None
+                return srv, got == body, "stored file differs" if got != body else ""
+            finally:
+                s.close()
+        with concurrent.futures.ThreadPoolExecutor(max_workers=2) as ex:
+            for srv, ok, note in ex.map(after_lost_final_ack, servers):
+                evals += 1
+                if ok is None:
+                    v.note_inconclusive(f"transfer after a lost final ACK could not be set up: {note}")
+                elif not ok:
+                    v.violation("C04/net/next-transfer-after-lost-final-ack", f"{'single' if srv.single else 'multi'}-port: after a download whose final ACK was lost, the next transfer from the same client socket (a block every 0.45 s, timeout 1 s) failed: {note}",
+                                {"engine": "net", "single_port": srv.single, "note": note})
     fallback = {}
     if pid == "C01":
         jobs = []
